@@ -1240,14 +1240,26 @@ class _tzicalvtz(_tzinfo):
                     lastcomp, lastonset = comp, onset
 
         if lastcomp is None:
-            # Before the first onset
-            return dt + self._find_comp(dt).tzoffsetto
+            # Before the first onset: the first standard component, or
+            # the first component if there is none (as in _find_comp,
+            # which must not be asked with a UTC reading)
+            for lastcomp in self._comps:
+                if not lastcomp.isdst:
+                    break
+            else:
+                lastcomp = self._comps[0]
 
-        # Second pass through the interval repeated by this onset
+            return dt + lastcomp.tzoffsetto
+
+        # Second pass through the interval repeated by this onset (the
+        # first onset of a zone repeats nothing if the offset in force
+        # before it was not the component's TZOFFSETFROM)
+        wall = dt + lastcomp.tzoffsetto
         fold = (lastcomp.tzoffsetdiff < ZERO and
-                utc - lastonset < -lastcomp.tzoffsetdiff)
+                utc - lastonset < -lastcomp.tzoffsetdiff and
+                self.is_ambiguous(wall))
 
-        return enfold(dt + lastcomp.tzoffsetto, fold=int(fold))
+        return enfold(wall, fold=int(fold))
 
     def utcoffset(self, dt):
         if dt is None:
